@@ -1243,9 +1243,11 @@ func (pt ProvidedType) Field() *Field {
 // bindShouldUsePointer loads the wire package the user is importing from their
 // injector. The call is a wire marker function call.
 func bindShouldUsePointer(info *types.Info, call *ast.CallExpr) bool {
-	// These type assertions should not fail, otherwise panic.
-	fun := call.Fun.(*ast.SelectorExpr)                 // wire.Bind
-	pkgName := fun.X.(*ast.Ident)                       // wire
-	wireName := info.ObjectOf(pkgName).(*types.PkgName) // wire package
-	return wireName.Imported().Scope().Lookup("bindToUsePointer") != nil
+	// Resolve the marker function itself so that dot-imported and renamed
+	// imports of the wire package work too.
+	fnObj := qualifiedIdentObject(info, call.Fun)
+	if fnObj == nil || fnObj.Pkg() == nil {
+		return true
+	}
+	return fnObj.Pkg().Scope().Lookup("bindToUsePointer") != nil
 }
